@@ -19,6 +19,8 @@ API
   constructs(story) -> collections.Counter                  how many of each construct (evidence)
   has_block(story) -> bool                                  at least one @if/@for/@py/join block
   shrink(story, still_fails) -> Story                       greedy deletion of passages/items/branches
+  well_formed(story) -> bool                                the generator guarantees a reduction must keep
+  py_shape(lines) / py_body_tags(story)                     blank-line shapes of Python blocks (evidence, signatures)
   story_to_json(story) / story_from_json(obj)               replay files
 
 AST (dataclasses; `kind` is the class name)
@@ -506,6 +508,18 @@ def py_body_tags(story: Story):
             if isinstance(it, PyBlock):
                 tags.update(t for t in py_shape(it.lines) if t in ("leading-blank", "ws-only-line"))
     return sorted(tags)
+
+
+def well_formed(story: Story) -> bool:
+    """The generator guarantees that the shrinker could break: a join choice is never the last item of a passage body
+    and is never directly followed by a blank line (the blank line / the end of the file would belong to its block or
+    to the passage depending on a comment line in between)."""
+    for p in story.passages:
+        for n, it in enumerate(p.body):
+            if isinstance(it, Choice) and it.target == "@join":
+                if n + 1 == len(p.body) or isinstance(p.body[n + 1], Blank):
+                    return False
+    return True
 
 
 def has_block(story: Story) -> bool:
